@@ -548,7 +548,7 @@ fn unesc(s: &str) -> String {
     out
 }
 
-/// Per-case wall-clock limit inside a worker (seconds); a case exceeding it is reported as a timeout
+/// Per-case CPU-time limit inside a worker (seconds); a case exceeding it is reported as a timeout
 pub const CASE_TIME_LIMIT_S: f64 = 5.0;
 
 /// Child side. Runs cases lo..hi of `case(idx, acc)`. In careful mode prints `B <idx>` (flushed) before each case.
@@ -557,7 +557,9 @@ pub fn worker_loop(lo: u64, hi: u64, careful: bool, case: &(dyn Fn(u64, &mut Acc
     use std::io::Write;
     use std::sync::Arc;
     let current = Arc::new(AtomicU64::new(u64::MAX));
-    let started = Arc::new(Mutex::new(Instant::now()));
+    // CPU seconds consumed by this process when the current case started: the limit is on CPU time, so a loaded
+    // machine cannot turn a slow-but-finite case into a timeout
+    let started = Arc::new(Mutex::new(process_cpu_s()));
     {
         let current = current.clone();
         let started = started.clone();
@@ -565,7 +567,7 @@ pub fn worker_loop(lo: u64, hi: u64, careful: bool, case: &(dyn Fn(u64, &mut Acc
             loop {
                 std::thread::sleep(Duration::from_millis(50));
                 let idx = current.load(Ordering::SeqCst);
-                if idx != u64::MAX && started.lock().unwrap().elapsed().as_secs_f64() > CASE_TIME_LIMIT_S {
+                if idx != u64::MAX && process_cpu_s() - *started.lock().unwrap() > CASE_TIME_LIMIT_S {
                     // the case may have just finished: re-check
                     if current.load(Ordering::SeqCst) == idx {
                         let out = std::io::stdout();
@@ -587,7 +589,7 @@ pub fn worker_loop(lo: u64, hi: u64, careful: bool, case: &(dyn Fn(u64, &mut Acc
                 let _ = writeln!(l, "B {}", idx);
                 let _ = l.flush();
             }
-            *started.lock().unwrap() = Instant::now();
+            *started.lock().unwrap() = process_cpu_s();
             current.store(idx, Ordering::SeqCst);
             acc.cur_index = idx;
             case(idx, &mut acc);
@@ -704,7 +706,9 @@ fn run_child(prop: &str, space: &str, lo: u64, hi: u64, careful: bool, extra: &[
 
 /// Supervisor side: enumerate 0..total in child processes (one chunk per child, `ctx.jobs` children at a time).
 /// `describe(idx)` renders a case for the replay file of an abort/timeout (the supervisor never runs the subject).
-pub fn run_isolated(ctx: &Ctx, space: &str, total: u64, chunk: u64, extra: &[String], describe: &(dyn Fn(u64) -> (String, String) + Sync)) -> ParResult {
+/// `monotone`: the cases of a chunk are members of one family ordered by size; after the first abort/timeout the
+/// larger members are skipped (they would die the same way) and counted.
+pub fn run_isolated(ctx: &Ctx, space: &str, total: u64, chunk: u64, extra: &[String], monotone: bool, describe: &(dyn Fn(u64) -> (String, String) + Sync)) -> ParResult {
     let chunk = chunk.max(1);
     let nchunks = total.div_ceil(chunk);
     let next = AtomicU64::new(0);
@@ -748,6 +752,10 @@ pub fn run_isolated(ctx: &Ctx, space: &str, total: u64, chunk: u64, extra: &[Str
                                         replay,
                                     });
                                     from = idx + 1;
+                                    if monotone {
+                                        local.add("larger_family_members_skipped_after_a_death", hi - from);
+                                        break;
+                                    }
                                 }
                                 None => {
                                     local.violation(Violation {
@@ -782,4 +790,22 @@ fn signal_name(status: &str) -> String {
     } else {
         status.replace(' ', "-")
     }
+}
+
+/// CPU time consumed by the whole process, seconds.
+pub fn process_cpu_s() -> f64 {
+    #[repr(C)]
+    struct Timespec {
+        tv_sec: i64,
+        tv_nsec: i64,
+    }
+    unsafe extern "C" {
+        fn clock_gettime(clk: i32, ts: *mut Timespec) -> i32;
+    }
+    let mut ts = Timespec { tv_sec: 0, tv_nsec: 0 };
+    // CLOCK_PROCESS_CPUTIME_ID = 2 on Linux
+    unsafe {
+        clock_gettime(2, &mut ts);
+    }
+    ts.tv_sec as f64 + ts.tv_nsec as f64 * 1e-9
 }
